@@ -17,7 +17,7 @@ Here is a semantic property that the library is supposed to satisfy:
 
 Your task: write a small, realistic change to the library source under {wt}/src that BREAKS this property while
   (a) the crate still compiles, and
-  (b) the existing test suite still passes, unedited: run  cd {wt} && CARGO_TARGET_DIR={wt}/target cargo test --workspace --no-fail-fast --offline  (about 2-3 minutes the first time; there is no network, everything needed is cached; one always-present test may be reported as failing only under nextest, under plain cargo test all pass).
+  (b) the existing test suite still passes, unedited: run  cd {wt} && CARGO_TARGET_DIR={wt}/target cargo test --workspace --no-fail-fast --offline  (about 2-3 minutes the first time; there is no network, everything needed is cached; exactly one test, test_side_metadata_sanity_verify_no_overlap_contiguous, fails on the unmodified tree too - ignore it; doc-tests are not part of the suite).
 The change should look like a bug a maintainer could plausibly introduce (an off-by-one, a wrong comparison, a dropped update or barrier, swapped arguments, a missing check, a wrong ordering, a stale value), and it must be SUBTLE: it should need something specific to manifest - a particular multi-step sequence of operations, an unusual input or size, a particular plan/configuration, a particular thread interleaving, a fault at a particular point, or two cooperating code sites that each look fine alone - and must NOT be something that ordinary use exposes at once (e.g. not 'every allocation fails' or 'every GC crashes'). Prefer silent wrong behaviour over panics. Do not edit tests, Cargo features, src/verif.rs or any code guarded by cfg(mmtk_verif) (those are read-only instrumentation), and do not add new cfg flags.
 
 Also produce a demonstration that fails with your change and passes without it: a Rust test (e.g. a new file you add under {wt}/tests/ or a #[test] in a new module) or a small program. For properties about whole collections a full VM binding is hard to write; in that case a focused test that drives the changed component directly (or a MockVM-based test under the `mock_test` feature, see src/vm/tests/mock_tests) and shows the wrong result is acceptable, together with a precise description of the user-level scenario (plan, options, sequence of operations) in which the property is violated.
